@@ -33,6 +33,9 @@ INPUTS = {
     "crlf": "{ a = 1; }\r\n",
     "list-top": "[ 1 2 ]\n",
     "lambda": "{ p }:\n{\n  a = 1;\n}\n",
+    "unicode-linebreaks": '{ a = "x\u2028y\x0cz\x85w"; } # c\u2029d\n',  # characters str.splitlines() treats as line ends
+    "ident-body": "{ pkgs }: pkgs\n",  # edits fail with ResolutionError
+    "let-alias-body": "let\n  cfg = other;\nin\ncfg\n",
 }
 COMMANDS = [
     ("test",),
